@@ -1107,10 +1107,76 @@ theorem pres_closeSlot {c : Conn} {n : Nat} {slot : Slot} (hslot : lookupN n c.s
       rw [heq2] at q3
       exact q2.trans q3
 
+/-- The shape of the server-initiated channel-close arm of `processChannelMethod`: the consumers
+    first, then the channel's caller. -/
+def closeSlotN (c : Conn) (n : Nat) (slot : Slot) (r : Reply) (m : CMsg) (fin : Conn → Conn) :
+    Conn × Option Err :=
+  match notifyConsumers m (removeSlot c n) slot.consumers with
+  | (c2, some e) =>
+    let c4 := dropSlotEnds c2 slot
+    ({ c4 with nondet := c4.nondet || decide (slot.consumers.length > 1) }, some e)
+  | (c2, none) =>
+    match sendReply c2 slot.lid r with
+    | (c3, some e) => (dropSlotEnds c3 slot, some e)
+    | (c3, none) => (dropSlotEnds (fin c3) slot, none)
+
+theorem keep_closeSlotN (c : Conn) (n : Nat) (slot : Slot) (r : Reply) (m : CMsg) (fin : Conn → Conn)
+    (hf : ∀ x, Core x (fin x)) : Keep (removeSlot c n) (closeSlotN c n slot r m fin).1 := by
+  unfold closeSlotN
+  have h1 := keep_notifyConsumers m (removeSlot c n) slot.consumers
+  split
+  · rename_i heq; rw [heq] at h1
+    have h3 := h1.trans (keep_dropSlotEnds _ slot)
+    exact ⟨h3.slots, h3.alloc, h3.nextQid⟩
+  · rename_i c2 heq; rw [heq] at h1
+    have h2 := (core_sendReply c2 slot.lid r).keep
+    split
+    · rename_i heq2; rw [heq2] at h2
+      exact h1.trans (h2.trans (keep_dropSlotEnds _ slot))
+    · rename_i heq2; rw [heq2] at h2
+      exact h1.trans (h2.trans ((hf _).keep.trans (keep_dropSlotEnds _ slot)))
+
+theorem pres_closeSlotN {c : Conn} {n : Nat} {slot : Slot} (hslot : lookupN n c.slots = some slot)
+    (r : Reply) (m : CMsg) (fin : Conn → Conn) (hf : ∀ x, Core x (fin x)) :
+    Pres c (closeSlotN c n slot r m fin).1 := by
+  intro h
+  have hk := keep_closeSlotN c n slot r m fin hf
+  refine invC_release h hslot hk.slots hk.alloc ?_
+  have hn := qids_nodup_of_lookup hslot h.sok.tbl_nodup
+  have hL : ∀ x ∈ qids slot.consumers, x ∈ tbl c.slots := fun x hx => mem_tbl_of_mem hslot hx
+  have q1 : QStep c (removeSlot c n) (fun x => x ∈ tbl c.slots) (fun x => x ∈ tbl c.slots) :=
+    QStep.of_q rfl rfl _
+  unfold closeSlotN
+  split
+  · rename_i c2 e heq
+    have q3 : QStep (removeSlot c n)
+        (dropSlotEnds (notifyConsumers m (removeSlot c n) slot.consumers).1 slot) _ _ :=
+      qstep_notify_drop m (removeSlot c n) slot _ hn hL id (fun x => Core.refl x)
+    rw [heq] at q3
+    exact q1.trans (q3.trans (QStep.of_q rfl rfl _))
+  · rename_i c2 heq
+    split
+    · rename_i c3 e heq2
+      have q3 : QStep (removeSlot c n)
+          (dropSlotEnds (sendReply (notifyConsumers m (removeSlot c n) slot.consumers).1 slot.lid r).1
+            slot) _ _ :=
+        qstep_notify_drop m (removeSlot c n) slot _ hn hL (fun x => (sendReply x slot.lid r).1)
+          (fun x => core_sendReply x slot.lid r)
+      rw [heq] at q3; dsimp only at q3; rw [heq2] at q3
+      exact q1.trans q3
+    · rename_i c3 heq2
+      have q3 : QStep (removeSlot c n)
+          (dropSlotEnds (fin (sendReply (notifyConsumers m (removeSlot c n) slot.consumers).1 slot.lid
+            r).1) slot) _ _ :=
+        qstep_notify_drop m (removeSlot c n) slot _ hn hL (fun x => fin (sendReply x slot.lid r).1)
+          (fun x => (core_sendReply x slot.lid r).trans (hf _))
+      rw [heq] at q3; dsimp only at q3; rw [heq2] at q3
+      exact q1.trans q3
+
 theorem pcm_close_eq (c : Conn) (n code : Nat) (text dbg : Bytes) :
     processChannelMethod c n 20 40 [.nat code, .bytes text] dbg =
       match slotGet c n with
-      | .ok slot => closeSlot c n slot (.err (.serverClosedChannel n code text))
+      | .ok slot => closeSlotN c n slot (.err (.serverClosedChannel n code text))
           (.serverClosedChannel n code text) (fun x => pushOut x (channelCloseOk n))
       | .error e => (c, some e) := rfl
 
@@ -1243,15 +1309,16 @@ theorem pcm_cancelOk_eq (c : Conn) (n : Nat) (tag dbg : Bytes) :
       | .ok slot =>
         let consumer := lookupB tag slot.consumers
         let c1 := setSlot c n { slot with consumers := eraseB tag slot.consumers }
-        match sendReply c1 slot.lid (.method 60 31 [.bytes tag]) with
-        | (c2, some e) => ((match consumer with | some q => dropConsTx c2 q | none => c2), some e)
-        | (c2, none) =>
+        let r : Conn × Option Err :=
           match consumer with
           | some qid =>
-            match sendCons c2 qid .clientCancelled with
-            | (c3, some e) => (dropConsTx c3 qid, some e)
-            | (c3, none) => (dropConsTx c3 qid, none)
-          | none => (c2, none)
+            match sendCons c1 qid .clientCancelled with
+            | (c2, some e) => (dropConsTx c2 qid, some e)
+            | (c2, none) => (dropConsTx c2 qid, none)
+          | none => (c1, none)
+        match r with
+        | (c2, some e) => (c2, some e)
+        | (c2, none) => sendReply c2 slot.lid (.method 60 31 [.bytes tag])
       | .error e => (c, some e) := rfl
 
 /-- Dropping the sender of a registered queue whose entry just left the table. -/
@@ -1274,24 +1341,24 @@ theorem pres_cancelOk (c : Conn) (n : Nat) (tag dbg : Bytes) :
   · rename_i slot hs
     have hslot := slotGet_ok hs
     dsimp only
-    have hcore := fun x => core_sendReply x slot.lid (.method 60 31 [.bytes tag])
-    cases hc : lookupB tag slot.consumers with
-    | none =>
-      have hsame : Pres c (setSlot c n { slot with consumers := eraseB tag slot.consumers }) :=
-        pres_setSlot_same hslot _ (eraseB_of_not_mem (lookupB_none_iff.mp hc))
-      have h2 := hsame.trans (Pres.of_core (hcore _))
-      split <;> (rename_i heq; rw [heq] at h2; exact h2)
-    | some qid =>
-      dsimp only
+    have hr : Pres c (match lookupB tag slot.consumers with
+        | some qid =>
+          match sendCons (setSlot c n { slot with consumers := eraseB tag slot.consumers }) qid
+              .clientCancelled with
+          | (c2, some e) => (dropConsTx c2 qid, some e)
+          | (c2, none) => (dropConsTx c2 qid, none)
+        | none => (setSlot c n { slot with consumers := eraseB tag slot.consumers }, none) :
+          Conn × Option Err).1 := by
       split
-      · rename_i heq
-        have := pres_cancel_drop hslot hc (fun x => (sendReply x slot.lid (.method 60 31 [.bytes tag])).1) hcore
-        rw [heq] at this; exact this
-      · rename_i heq
+      · rename_i qid hc
         rw [send_then_drop]
-        have := pres_cancel_core hslot hc (fun x => (sendReply x slot.lid (.method 60 31 [.bytes tag])).1)
-          hcore .clientCancelled
-        rw [heq] at this; exact this
+        exact pres_cancel_core hslot hc id (fun x => Core.refl x) _
+      · rename_i hc
+        exact pres_setSlot_same hslot _ (eraseB_of_not_mem (lookupB_none_iff.mp hc))
+    split
+    · rename_i heq; rw [heq] at hr; exact hr
+    · rename_i heq; rw [heq] at hr
+      exact hr.trans (Pres.of_core (core_sendReply _ _ _))
   · exact Pres.refl c
 
 theorem pres_close (c : Conn) (n code : Nat) (text dbg : Bytes) :
@@ -1299,7 +1366,7 @@ theorem pres_close (c : Conn) (n code : Nat) (text dbg : Bytes) :
   rw [pcm_close_eq]
   split
   · rename_i hs
-    exact pres_closeSlot (slotGet_ok hs) _ _ _ (fun x => core_pushOut x _)
+    exact pres_closeSlotN (slotGet_ok hs) _ _ _ (fun x => core_pushOut x _)
   · exact Pres.refl c
 
 theorem pres_closeOk (c : Conn) (n : Nat) (fields : List Field) (dbg : Bytes) :
@@ -1353,13 +1420,13 @@ theorem keep_drain_go (r : Reply) (m : CMsg) (all : List (Nat × Slot)) (c : Con
     obtain ⟨k, s⟩ := x
     unfold drainSlots.go
     dsimp only
-    have h1 := (core_sendReply c s.lid r).keep
+    have h1 := keep_notifyConsumers m c s.consumers
     split
     · rename_i heq; rw [heq] at h1
       have h2 := h1.trans (keep_foldl_dropSlotEnds _ (s :: rest.map (·.2)))
       exact ⟨h2.slots, h2.alloc, h2.nextQid⟩
     · rename_i c1 heq; rw [heq] at h1
-      have h2 := keep_notifyConsumers m c1 s.consumers
+      have h2 := (core_sendReply c1 s.lid r).keep
       split
       · rename_i heq2; rw [heq2] at h2
         have h3 := h1.trans (h2.trans (keep_foldl_dropSlotEnds _ (s :: rest.map (·.2))))
@@ -1384,35 +1451,42 @@ theorem qstep_drain_go (r : Reply) (m : CMsg) (all : List (Nat × Slot)) (l : Li
       QStep.refl _ _
     unfold drainSlots.go
     dsimp only
-    have q1 := QStep.of_core (core_sendReply c s.lid r) (fun x => x ∈ tbl ((k, s) :: rest))
+    have hLs : ∀ x ∈ qids s.consumers, x ∈ tbl ((k, s) :: rest) :=
+      fun x hx => by rw [tbl_cons]; exact List.mem_append_left _ hx
     split
-    · rename_i heq; rw [heq] at q1
-      have q2 := q1.trans (qstep_dropAllSlots ((k, s) :: rest) _ _ (fun _ h => h))
-      exact q2.trans (QStep.of_q rfl rfl _)
-    · rename_i c1 heq; rw [heq] at q1
+    · rename_i c1 e heq
+      -- the notification loop failed: whatever it reached is released, the rest is dropped
+      intro h
+      obtain ⟨P', a1, a2, a3, _, _⟩ := notify_q m s.consumers c _ hns hLs h
+      rw [heq] at a1 a2
+      obtain ⟨b1, b2⟩ := qstep_dropAllSlots ((k, s) :: rest) c1 P' a3 a1
+      exact ⟨b1, a2.trans b2⟩
+    · rename_i c1 heq
       split
       · rename_i c2 e heq2
-        -- the notification loop failed: whatever it reached is released, the rest is dropped
+        -- the caller is gone: every slot still in the iterator is dropped
         intro h
-        obtain ⟨h1, m1⟩ := q1 h
-        obtain ⟨P', a1, a2, a3, _, _⟩ := notify_q m s.consumers c1 _ hns
-          (fun x hx => by rw [tbl_cons]; exact List.mem_append_left _ hx) h1
-        rw [heq2] at a1 a2
-        obtain ⟨b1, b2⟩ := qstep_dropAllSlots ((k, s) :: rest) c2 P' a3 a1
-        exact ⟨b1, m1.trans (a2.trans b2)⟩
+        obtain ⟨P', a1, a2, a3, _, _⟩ := notify_q m s.consumers c _ hns hLs h
+        rw [heq] at a1 a2
+        have q2 := QStep.of_core (core_sendReply c1 s.lid r) P'
+        rw [heq2] at q2
+        obtain ⟨a1', a2'⟩ := q2 a1
+        obtain ⟨b1, b2⟩ := qstep_dropAllSlots ((k, s) :: rest) c2 P' a3 a1'
+        exact ⟨b1, a2.trans (a2'.trans b2)⟩
       · rename_i c2 heq2
         intro h
-        obtain ⟨h1, m1⟩ := q1 h
-        have q3 := qstep_notify_drop m c1 s (fun x => x ∈ tbl ((k, s) :: rest)) hns
-          (fun x hx => by rw [tbl_cons]; exact List.mem_append_left _ hx) id (fun x => Core.refl x)
-        rw [heq2] at q3
-        obtain ⟨h3, m3⟩ := q3 h1
+        have q3 : QStep c (dropSlotEnds (sendReply (notifyConsumers m c s.consumers).1 s.lid r).1 s)
+            _ _ :=
+          qstep_notify_drop m c s (fun x => x ∈ tbl ((k, s) :: rest)) hns hLs
+            (fun x => (sendReply x s.lid r).1) (fun x => core_sendReply x s.lid r)
+        rw [heq] at q3; dsimp only at q3; rw [heq2] at q3
+        obtain ⟨h3, m3⟩ := q3 h
         have h3' : QI (dropSlotEnds c2 s).cqs (dropSlotEnds c2 s).nextQid (fun x => x ∈ tbl rest) := by
           refine h3.iff (fun x => ?_)
           rw [tbl_cons, List.mem_append]
           exact ⟨fun hx => ⟨Or.inr hx, hdis x hx⟩, fun ⟨hx, hnx⟩ => hx.resolve_left hnx⟩
         obtain ⟨h4, m4⟩ := ih (dropSlotEnds c2 s) hnr h3'
-        exact ⟨h4, m1.trans (m3.trans m4)⟩
+        exact ⟨h4, m3.trans m4⟩
 
 theorem drain_open_nil (a : Slots.Slots) : (Slots.drain a).1.open_ = [] := rfl
 
@@ -2091,16 +2165,14 @@ theorem pcm_cancelOk_spec (c : Conn) (n : Nat) (slot : Slot) (tag dc : Bytes) (q
           cqs := setN qid { q with msgs := q.msgs ++ [.clientCancelled], txAlive := false } c.cqs }, none) := by
   rw [pcm_cancelOk_eq, slotGet_of_lookup hslot]
   dsimp only
-  rw [sendReply_ok (c := setSlot c n { slot with consumers := eraseB tag slot.consumers }) halive hroom]
-  dsimp only
   rw [hc]
   dsimp only
   rw [send_then_drop]
-  obtain ⟨e1, e2⟩ := send_drop_eq (c := setLink (setSlot c n { slot with consumers := eraseB tag slot.consumers }) slot.lid
-      { (getLink (setSlot c n { slot with consumers := eraseB tag slot.consumers }) slot.lid) with
-        replies := (getLink (setSlot c n { slot with consumers := eraseB tag slot.consumers }) slot.lid).replies ++
-          [.method 60 31 [.bytes tag]] }) hq hrx .clientCancelled
+  obtain ⟨e1, e2⟩ := send_drop_eq (c := setSlot c n { slot with consumers := eraseB tag slot.consumers })
+    hq hrx .clientCancelled
   rw [e1, e2]
+  dsimp only
+  refine Eq.trans (sendReply_ok (by exact halive) (by exact hroom) _) ?_
   rfl
 
 theorem pcm_cancel_spec (c : Conn) (n : Nat) (slot : Slot) (tag dc : Bytes) (nowait : Bool) (qid : Nat) (q : CQ)
